@@ -5,6 +5,7 @@ package space
 import (
 	"fmt"
 	"sort"
+	"strings"
 
 	"verif/internal/dsl"
 	"verif/spec"
@@ -23,6 +24,12 @@ type Case struct {
 	Separate bool
 	// StructImport is the import path suffix of the struct package in the separate layout.
 	StructImport string
+	// TFPkg / TFDir: name and directory (below the case) of the target package in the separate
+	// layout ("" = tfschema / the package name).
+	TFPkg, TFDir string
+	// ProtoPkgSuffix is appended to the proto package (the case id), e.g. ".v1": protoc-gen-gogo
+	// then derives a Go package name with an underscore from it.
+	ProtoPkgSuffix string
 	// Group ties variants that a differential oracle compares ("" = none); Variant names this member.
 	Group   string
 	Variant string
@@ -492,6 +499,123 @@ func F3(reps [][2]string) []*Case {
 	return out
 }
 
+// AllExcluded is the family of messages all of whose fields are excluded by the configuration:
+// such a message at every position, as the root itself, and as the only (embedded) content of
+// another message.
+func AllExcluded() []*Case {
+	var out []*Case
+	inner := func() *dsl.Message {
+		return &dsl.Message{Name: "Inner", Oneofs: []string{"Pick2"}, Fields: []*dsl.Field{
+			{Name: "X", Num: 1, T: dsl.String}, {Name: "Y", Num: 2, T: dsl.Int32},
+			{Name: "Za", Num: 3, T: dsl.String, Oneof: "Pick2"}, {Name: "Zb", Num: 4, T: dsl.Msg, Ref: "Leaf", Oneof: "Pick2"},
+		}}
+	}
+	excl := []string{"Inner.X", "Inner.Y", "Inner.Za", "Inner.Zb"}
+	tags := func(pos string) map[string]string {
+		return map[string]string{"card": "all-excluded", "vt": "allExcluded", "class": "message", "pos": pos}
+	}
+	for _, pos := range Positions {
+		c := BaseConfig("Root")
+		c.Exclude = excl
+		out = append(out, &Case{Label: "FX/all-excluded/" + pos, Family: "FX", Tags: tags(pos), File: newFile(wrap("Root", "Inner", pos), inner()), Cfg: c})
+	}
+	{
+		// the selected root itself
+		c := BaseConfig("Inner", "Root")
+		c.Exclude = excl
+		out = append(out, &Case{Label: "FX/all-excluded/root", Family: "FX", Tags: tags("P0"), File: newFile(wrap("Root", "Inner", "P1nullable"), inner()), Cfg: c})
+	}
+	{
+		// a message without fields selected as a root
+		nothing := &dsl.Message{Name: "Nothing", Comment: " Nothing has no fields"}
+		t := tags("P0")
+		t["card"], t["vt"] = "no-fields", "emptyRoot"
+		out = append(out, &Case{Label: "FX/no-fields/root", Family: "FX", Tags: t, File: newFile(wrap("Root", "Nothing", "P1nullable"), nothing), Cfg: BaseConfig("Nothing", "Root")})
+	}
+	for _, pos := range []string{"P6embedval", "P6embedptr"} {
+		// Mid holds nothing but the embedded message, so it ends up without attributes as well
+		mid := wrap("Mid", "Inner", pos)
+		mid.Fields = mid.Fields[:1]
+		for _, pos2 := range []string{"P1nullable", "P3listval", "P4mapptr"} {
+			c := BaseConfig("Root")
+			c.Exclude = excl
+			out = append(out, &Case{Label: "FX/all-excluded/" + pos2 + ">" + pos + "-only", Family: "FX", Tags: tags(pos2 + ">" + pos), File: newFile(wrap("Root", "Mid", pos2), mid, inner()), Cfg: c})
+		}
+	}
+	return out
+}
+
+// Split derives the multi-file variant of a case: every message that is not a selected root and
+// does not (transitively) refer to a message that stays, and every enum, moves to an imported
+// sibling file of the same package. The expectation tree is unchanged; comment locations, message
+// indices and the file a type is declared in are not.
+func Split(c *Case) *Case {
+	n := *c
+	n.Cfg = c.Cfg.Clone()
+	fc := *c.File
+	n.File = &fc
+	n.Tags = map[string]string{}
+	for k, v := range c.Tags {
+		n.Tags[k] = v
+	}
+	n.Tags["files"] = "split"
+	n.Label = c.Label + "|split-files"
+	stay := map[string]bool{}
+	for _, t := range c.Cfg.Types {
+		stay[t] = true
+	}
+	refs := func(m *dsl.Message) []string {
+		var out []string
+		var walk func(m *dsl.Message)
+		walk = func(m *dsl.Message) {
+			for _, fl := range m.Fields {
+				if fl.T == dsl.Msg && fl.Ref != dsl.Timestamp && fl.Ref != dsl.Duration {
+					top := fl.Ref
+					if i := strings.Index(top, "."); i >= 0 {
+						top = top[:i]
+					}
+					out = append(out, top)
+				}
+			}
+			for _, x := range m.Nested {
+				walk(x)
+			}
+		}
+		walk(m)
+		return out
+	}
+	for changed := true; changed; {
+		changed = false
+		for _, m := range c.File.Messages {
+			if stay[m.Name] {
+				continue
+			}
+			for _, r := range refs(m) {
+				if stay[r] {
+					stay[m.Name] = true
+					changed = true
+				}
+			}
+		}
+	}
+	sib := &dsl.File{Name: "common.proto"}
+	fc.Messages = nil
+	for _, m := range c.File.Messages {
+		if stay[m.Name] {
+			fc.Messages = append(fc.Messages, m)
+		} else {
+			sib.Messages = append(sib.Messages, m)
+		}
+	}
+	sib.Enums = c.File.Enums
+	fc.Enums = nil
+	if len(sib.Messages) == 0 && len(sib.Enums) == 0 {
+		return nil
+	}
+	fc.Siblings = []*dsl.File{sib}
+	return &n
+}
+
 // SortCases orders cases by label (stable identity).
 func SortCases(cs []*Case) {
 	sort.SliceStable(cs, func(i, j int) bool { return cs[i].Label < cs[j].Label })
@@ -579,6 +703,51 @@ func F4() []*Case {
 	out = append(out, &Case{Label: "F4/value-elements-with-nullable-embed", Family: "F4", Tags: map[string]string{"card": "embed", "vt": "embed-in-value-elements", "class": "embedded", "pos": "P3"}, File: newFile(byValue, elemHost, &limits3), Cfg: BaseConfig("Root")})
 	auth2, limits2 := *auth, *limits
 	out = append(out, &Case{Label: "F4/value-and-nullable-embed", Family: "F4", Tags: map[string]string{"card": "embed", "vt": "two-embeds-mixed", "class": "embedded", "pos": "P0"}, File: newFile(mixed, &auth2, &limits2), Cfg: BaseConfig("Root")})
+	// oneof groups declared in an order that is not the alphabetical order of their names, at the
+	// root and in a nested message (group lookup by index vs by sorted name)
+	unordered := &dsl.Message{Name: "Root", Oneofs: []string{"Zone", "auth_kind", "Mid"}, Fields: []*dsl.Field{
+		{Name: "ZText", Num: 1, T: dsl.String, Oneof: "Zone"},
+		{Name: "ZLeaf", Num: 2, T: dsl.Msg, Ref: "Leaf", Oneof: "Zone"},
+		{Name: "Plain", Num: 3, T: dsl.String},
+		{Name: "a_num", Num: 4, T: dsl.Int64, Oneof: "auth_kind"},
+		{Name: "a_flag", Num: 5, T: dsl.Bool, Oneof: "auth_kind"},
+		{Name: "MBytes", Num: 6, T: dsl.Bytes, Oneof: "Mid"},
+		{Name: "MMode", Num: 7, T: dsl.Enum, Ref: "Mode", Oneof: "Mid"},
+		{Name: "Sub", Num: 8, T: dsl.Msg, Ref: "Pair"},
+	}}
+	pair := &dsl.Message{Name: "Pair", Oneofs: []string{"Right", "Left"}, Fields: []*dsl.Field{
+		{Name: "R1", Num: 1, T: dsl.String, Oneof: "Right"},
+		{Name: "R2", Num: 2, T: dsl.Int32, Oneof: "Right"},
+		{Name: "L1", Num: 3, T: dsl.Double, Oneof: "Left"},
+		{Name: "L2", Num: 4, T: dsl.Msg, Ref: "Leaf", Oneof: "Left"},
+	}}
+	out = append(out, &Case{Label: "F4/unordered-oneof-groups", Family: "F4", Tags: map[string]string{"card": "oneof", "vt": "unordered-groups", "class": "oneof", "pos": "P0"}, File: newFile(unordered, pair), Cfg: BaseConfig("Root")})
+	// attributes literally named "value" / "key" (the names of the synthetic map-entry fields) next
+	// to scalar maps of the same element type
+	sample := &dsl.Message{Name: "Sample", Fields: []*dsl.Field{
+		{Name: "value", Num: 1, T: dsl.Double},
+		{Name: "quantiles", Num: 2, T: dsl.Double, Card: dsl.Map},
+		{Name: "key", Num: 3, T: dsl.String},
+		{Name: "labels", Num: 4, T: dsl.String, Card: dsl.Map},
+	}}
+	blob := &dsl.Message{Name: "Blob", Fields: []*dsl.Field{
+		{Name: "Value", Num: 1, T: dsl.Bytes},
+		{Name: "Parts", Num: 2, T: dsl.Bytes, Card: dsl.Map},
+		{Name: "Key", Num: 3, T: dsl.Int64},
+		{Name: "Counts", Num: 4, T: dsl.Int64, Card: dsl.Map},
+		{Name: "List", Num: 5, T: dsl.Int64, Card: dsl.Repeated},
+	}}
+	named := &dsl.Message{Name: "Root", Fields: []*dsl.Field{
+		{Name: "value", Num: 1, T: dsl.String},
+		{Name: "tags", Num: 2, T: dsl.String, Card: dsl.Map},
+		{Name: "Sample", Num: 3, T: dsl.Msg, Ref: "Sample"},
+		{Name: "Blobs", Num: 4, T: dsl.Msg, Ref: "Blob", Card: dsl.Repeated},
+		{Name: "Level", Num: 5, T: dsl.Enum, Ref: "Mode", JSONTag: dsl.S("key")},
+		{Name: "Levels", Num: 6, T: dsl.Enum, Ref: "Mode", Card: dsl.Map},
+		{Name: "Flag", Num: 7, T: dsl.Bool, JSONTag: dsl.S("elem")},
+		{Name: "Flags", Num: 8, T: dsl.Bool, Card: dsl.Map},
+	}}
+	out = append(out, &Case{Label: "F4/value-named-siblings", Family: "F4", Tags: map[string]string{"card": "map", "vt": "value-named-siblings", "class": "scalar", "pos": "P0"}, File: newFile(named, sample, blob), Cfg: BaseConfig("Root")})
 	return out
 }
 
